@@ -92,7 +92,7 @@ def r15_1(ctx) -> None:
               "the decorator returns exactly one coroutine wrapper")
     if len(inner) != 1:
         return
-    w = inner[0]
+    w = ctx.inlined(inner[0], keep=(RN,))  # (the body may live in a private coroutine the wrapper awaits)
     fname = outer.param_names()[1]
     withs = [n for n in own_nodes(w.node) if isinstance(n, ast.AsyncWith)]
     ctx.check(len(withs) == 1 and len(withs[0].items) == 1, "R15.1", w, "inner", "each call runs inside one async with")
@@ -121,7 +121,10 @@ def r15_1(ctx) -> None:
             and len(a.value.args) == 1 and len(a.value.keywords) == 1]
     ctx.check(len(good) == 1 and len(awaits) == 1, "R15.1", w, awaits[0] if awaits else "inner",
               "the decorated function is awaited exactly once, inside the context, with *args and **kwds unchanged")
-    rets = [n for n in own_nodes(w.node) if isinstance(n, ast.Return)]
+    # (falling off the end after a context that swallowed the exception returns None, implicitly or spelled out)
+    last = w.node.body[-1] if w.node.body else None
+    rets = [n for n in own_nodes(w.node) if isinstance(n, ast.Return)
+            and not (n is last and (n.value is None or (isinstance(n.value, ast.Constant) and n.value.value is None)))]
     ctx.check(len(rets) == 1 and good and rets[0].value is good[0] if good else False, "R15.1", w, rets[0] if rets else "inner",
               "the function's result is returned")
     tries = [n for n in own_nodes(w.node) if isinstance(n, ast.Try)]
